@@ -371,6 +371,10 @@ class Harness(object):
     def op_finalize(self, op):
         self.solver.Finalize()
 
+    def op_reseed(self, op):
+        from mystic.tools import random_seed
+        random_seed(self.plan.get('lib_seed', 0) % (2**32))
+
     def peek_term(self, solver=None):
         """Terminated(info=True) without its side effects on the limits"""
         s = solver or self.solver
